@@ -116,6 +116,9 @@ TDeserU == IsEvent("DeserU") /\ LET e == Log[l]  b == blob[e.blob] IN
   /\ Chk("C09:reserialize", e.reimg = b.img)
   /\ un' = (e.u :> b.val) @@ un /\ UNCHANGED <<obj, blob>>
 
+\* a truncated image, or one with a non-positive stored weight, is refused (clause of C11 exercised by this driver)
+TDeserBad == IsEvent("DeserBad") /\ Chk("C11:damaged-image-refused", Log[l].refused) /\ UNCHANGED <<obj, un, blob>>
+
 \* ---- union ----
 TUNew == IsEvent("UNew") /\ LET e == Log[l] IN UnionNew(e.u, e.maxk) /\ UNCHANGED blob
 TUUpdate == IsEvent("UUpdate") /\ LET e == Log[l] IN
@@ -157,6 +160,6 @@ TStat == IsEvent("Stat") /\ LET e == Log[l]  tot == SumTo(e.w, Len(e.w)) IN
 
 TInit == obj = <<>> /\ un = <<>> /\ blob = <<>> /\ l = 1
 TNext == TBegin \/ TDNew \/ TDUpdate \/ TNew \/ TNewInvalid \/ TUNewInvalid \/ TUpdate \/ TUpdateInvalid \/ TObs \/ TCopy \/ TReset \/ TDrop
-         \/ TSer \/ TDeser \/ TSerU \/ TDeserU \/ TUNew \/ TUUpdate \/ TUResult \/ TUReset \/ TUDrop \/ TStat
+         \/ TSer \/ TDeser \/ TDeserBad \/ TSerU \/ TDeserU \/ TUNew \/ TUUpdate \/ TUResult \/ TUReset \/ TUDrop \/ TStat
 TSpec == TInit /\ [][TNext]_tvars
 ====
